@@ -151,6 +151,77 @@ fn park(codec: Box<dyn std::any::Any>, coin: u64) {
     P_PARKED.fetch_add(1, Ordering::Relaxed);
 }
 
+/// A decoder that lives longer than any one thread's job: it sits in a pool, every thread takes it out for a whole
+/// round now and then and puts it back, so it keeps coming back to threads that used it before, with loss patterns
+/// that repeat (objects "moved between threads" between rounds, not only in the middle of one).
+enum MigrantDec {
+    Rs(ReedSolomonDecoder),
+    High(HighRateDecoder<NoSimd>),
+    Low(LowRateDecoder<NoSimd>),
+}
+
+struct Migrant {
+    dec: MigrantDec,
+    k: usize,
+    originals: Vec<Vec<u8>>,
+    recovery0: Vec<u8>,
+    rounds: u32,
+}
+
+static P_MIGRANT_ROUNDS: AtomicU64 = AtomicU64::new(0);
+
+impl Migrant {
+    fn new(rng: &mut impl Rng) -> Migrant {
+        let k = rng.gen_range(2..=4usize);
+        let r = rng.gen_range(1..=4usize);
+        let b = 64usize;
+        let which = rng.gen_range(0..3u32);
+        let seed: u64 = rng.gen();
+        let originals: Vec<Vec<u8>> = (0..k)
+            .map(|i| {
+                let mut v = vec![0u8; b];
+                simcore::prng::Prng::new(simcore::prng::mix(&[seed, i as u64])).fill(&mut v);
+                v
+            })
+            .collect();
+        let (dec, high) = match which {
+            0 => (MigrantDec::Rs(ReedSolomonDecoder::new(k, r, b).unwrap_or_else(|e| violation(format!("ReedSolomonDecoder::new failed: {e:?}")))), envelope::default_is_high(k, r)),
+            1 if <HighRateDecoder<NoSimd> as RateDecoder<NoSimd>>::supports(k, r) => (MigrantDec::High(HighRateDecoder::new(k, r, b, NoSimd::new(), None).unwrap_or_else(|e| violation(format!("HighRateDecoder::new failed: {e:?}")))), true),
+            _ if <LowRateDecoder<NoSimd> as RateDecoder<NoSimd>>::supports(k, r) => (MigrantDec::Low(LowRateDecoder::new(k, r, b, NoSimd::new(), None).unwrap_or_else(|e| violation(format!("LowRateDecoder::new failed: {e:?}")))), false),
+            _ => (MigrantDec::Rs(ReedSolomonDecoder::new(k, r, b).unwrap_or_else(|e| violation(format!("ReedSolomonDecoder::new failed: {e:?}")))), envelope::default_is_high(k, r)),
+        };
+        let recovery0 = Code::new(if high { Rate::High } else { Rate::Low }, k, r).encode(&originals).swap_remove(0);
+        Migrant { dec, k, originals, recovery0, rounds: 0 }
+    }
+
+    /// One whole round on the calling thread: original `lost` is missing, recovery 0 stands in for it.
+    fn round(&mut self, lost: usize) {
+        let lost = lost % self.k;
+        macro_rules! go {
+            ($d:expr) => {{
+                for (i, o) in self.originals.iter().enumerate() {
+                    if i != lost {
+                        $d.add_original_shard(i, o).unwrap_or_else(|e| violation(format!("migrant decoder: add_original_shard({i}) failed: {e:?}")));
+                    }
+                }
+                $d.add_recovery_shard(0, &self.recovery0).unwrap_or_else(|e| violation(format!("migrant decoder: add_recovery_shard(0) failed: {e:?}")));
+                let res = $d.decode().unwrap_or_else(|e| violation(format!("migrant decoder: decode failed: {e:?}")));
+                let got: Vec<(usize, Vec<u8>)> = res.restored_original_iter().map(|(i, s)| (i, s.to_vec())).collect();
+                if got.len() != 1 || got[0].0 != lost || got[0].1 != self.originals[lost] {
+                    violation(format!("a decoder that moved between threads between rounds restored other data than sequential use (round {} of the object, original {lost} lost)", self.rounds + 1));
+                }
+            }};
+        }
+        match &mut self.dec {
+            MigrantDec::Rs(d) => go!(d),
+            MigrantDec::High(d) => go!(d),
+            MigrantDec::Low(d) => go!(d),
+        }
+        self.rounds += 1;
+        P_MIGRANT_ROUNDS.fetch_add(1, Ordering::Relaxed);
+    }
+}
+
 /// The part of a decode round that may run on another thread: remaining adds + decode + check.
 type Continuation = Box<dyn FnOnce(bool) + Send>;
 
@@ -474,16 +545,36 @@ fn scenario() {
     }
     let (tx, rx) = shuttle::sync::mpsc::channel::<Continuation>();
     let rx = Arc::new(shuttle::sync::Mutex::new(rx));
+    // one execution in three has a migrant decoder in a pool shared by all threads
+    let pool: Arc<shuttle::sync::Mutex<Vec<Migrant>>> = Arc::new(shuttle::sync::Mutex::new(Vec::new()));
+    if !crowd && rng.gen_range(0..3u32) == 0 {
+        pool.lock().unwrap().push(Migrant::new(&mut rng));
+    }
     let mut handles = Vec::new();
     for job in jobs {
         let tx = tx.clone();
         let rx = rx.clone();
+        let pool = pool.clone();
+        let visits: Vec<usize> = (0..rng.gen_range(1..=3usize)).map(|_| rng.gen_range(0..2usize)).collect();
         handles.push(shuttle::thread::spawn(move || {
+            // rounds on the migrant decoder before, between and after the thread's own job
+            let visit = |lost: usize| {
+                let taken = pool.lock().unwrap().pop();
+                if let Some(mut m) = taken {
+                    m.round(lost);
+                    pool.lock().unwrap().push(m);
+                }
+                shuttle::thread::sleep(std::time::Duration::ZERO);
+            };
+            visit(visits[0]);
             PARKED_EARLY.with(|p| p.borrow_mut().clear());
             run_job(&job, &tx);
             if let Some(gate) = &job.gate_open {
                 *gate.open.lock().unwrap() = true;
                 gate.cv.notify_all();
+            }
+            for lost in &visits[1..] {
+                visit(*lost);
             }
             drop(tx);
             // finish rounds other threads handed over (objects moved between threads mid-round)
@@ -695,6 +786,7 @@ fn cmd_worker(map: &BTreeMap<String, String>) -> i32 {
         .with("direct_poly", J::u(P_DIRECT_POLY.load(Ordering::Relaxed)))
         .with("parked", J::u(P_PARKED.load(Ordering::Relaxed)))
         .with("lazy", J::u(P_LAZY.load(Ordering::Relaxed)))
+        .with("migrant_rounds", J::u(P_MIGRANT_ROUNDS.load(Ordering::Relaxed)))
         .with("engines", engines);
     let code = match res {
         Ok(()) => 0,
@@ -855,7 +947,7 @@ fn cmd_check(map: &BTreeMap<String, String>) -> i32 {
         .with("scheduling_steps", J::u(sum("steps")))
         .with("runs_per_hour", J::u(if wall > 0.0 { (execs as f64 / wall * 3600.0) as u64 } else { 0 }))
         .with("faults_fired", J::obj().with("F12.context_switches", J::u(sum("context_switches"))).with("F12.preemptions", J::u(sum("preemptions"))).with("object_handed_over_mid_round", J::u(sum("handovers"))))
-        .with("probes", J::obj().with("encode_rounds", J::u(sum("encode_rounds"))).with("decode_rounds", J::u(sum("decode_rounds"))).with("round_finished_by_a_different_thread", J::u(sum("finished_by_other"))).with("executions_with_17_to_24_threads", J::u(sum("crowds"))).with("threads_starting_with_a_direct_eval_poly_call", J::u(sum("direct_poly"))).with("codecs_left_in_thread_local_storage_at_thread_exit", J::u(sum("parked"))).with("shards_whose_as_ref_waits_for_another_thread", J::u(sum("lazy"))).with("threads_per_engine", engines))
+        .with("probes", J::obj().with("encode_rounds", J::u(sum("encode_rounds"))).with("decode_rounds", J::u(sum("decode_rounds"))).with("round_finished_by_a_different_thread", J::u(sum("finished_by_other"))).with("executions_with_17_to_24_threads", J::u(sum("crowds"))).with("threads_starting_with_a_direct_eval_poly_call", J::u(sum("direct_poly"))).with("codecs_left_in_thread_local_storage_at_thread_exit", J::u(sum("parked"))).with("shards_whose_as_ref_waits_for_another_thread", J::u(sum("lazy"))).with("rounds_of_decoders_that_migrate_between_threads_between_rounds", J::u(sum("migrant_rounds"))).with("threads_per_engine", engines))
         .with("components", J::obj().with("real", J::Arr(vec![J::s("all codecs, engines and table initialisers of /repo, built through the shadow manifest with --cfg verif_shuttle")])).with("stub", J::Arr(vec![J::s("std::sync::LazyLock replaced by hook H4's shim (a shuttle Once that is fresh in every execution, so every execution runs the real initialisers again under its own schedule; the table built is compared byte for byte with the one a sequential warm-up execution built, which is also the one kept for the process); threads / mpsc / Mutex of the scenario are shuttle's")])))
         .with("exhaustive", J::Bool(false));
     let evidence = J::obj()
